@@ -18,6 +18,6 @@ i=0
 for spec in "$@"; do
   run_one "$spec" &
   i=$((i+1))
-  if [ $((i % 4)) -eq 0 ]; then wait; fi
+  if [ $((i % ${PAR:-4})) -eq 0 ]; then wait; fi
 done
 wait
